@@ -57,6 +57,18 @@ def run(rep, tier):
         if cols and len(set(cols)) != 1:
             rep.violation("C18/slot-column-counts-bytes", "the column of an error inside an interpolation slot changes when preceding text is replaced by text with the same number of characters: %s" % cols,
                           {"src": grp[1], "oracle": "character-count invariance", "variants": grp})
+    # lexical errors inside string literals (also on the second and later line of a multi-line literal): position of the offending character
+    from . import c15
+    bad = c15.bad_literals()
+    for (t, pos, kind), o in zip(bad, core.run_many([{"src": t} for t, _, _ in bad])):
+        rep.evaluations += 1
+        rep.process_runs += 1
+        rep.tally("injected", "malformed_literal")
+        d = judge.Diag(o.err)
+        if o.died or o.code != 103 or not d.ok:
+            rep.violation("C18/malformed-literal-shape", "malformed literal is not rejected with one located line: %r -> exit %s %r" % (t, o.code, o.err[:120]), {"src": t, "observed": o.brief()})
+        elif d.pos != pos:
+            rep.violation("C18/malformed-literal-position", "malformed literal %r reported at %s, the offending character is at %s" % (t, d.pos, pos), {"src": t, "observed": o.brief()})
     pinned = {k for k in rep.cov.get("layout_pairs", {}) if k.startswith("pinned:")}
     rep.rule = ("generated programs under random layouts of everything preceding each token (blank lines, tabs, CR LF, comments with multi-byte text, multi-line and hex-escaped string literals, continuation breaks): "
                 "(1) every token start reported by the lexer hook and every node position in the AST dump equals where the printer wrote the token; (2) runtime diagnostics of the pinned categories "
